@@ -176,7 +176,22 @@ pub fn c11(data: &[u8]) -> Option<c11::Case> {
     let flags: u8 = u.arbitrary().ok()?;
     let graphemes = flags & 1 != 0;
     // in grapheme mode mostly segmentation-stable texts (the asserting domain)
-    let s = fuzz_text(&mut u, 32, graphemes && flags & 6 != 0)?;
+    let s = if graphemes && flags & 6 == 6 {
+        // hazards next to pool clusters and whitespace (unstable, mostly without mixed clusters)
+        let n = u.int_in_range(0..=24usize).ok()?;
+        let mut s = String::new();
+        for _ in 0..n {
+            let k: u8 = u.arbitrary().ok()?;
+            s.push_str(match k % 3 {
+                0 => pick(&mut u, gen::CLOSED_POOL)?,
+                1 => pick(&mut u, gen::HAZARD_FRAGS)?,
+                _ => pick(&mut u, gen::WS_FRAGS)?,
+            });
+        }
+        s
+    } else {
+        fuzz_text(&mut u, 32, graphemes && flags & 6 != 0)?
+    };
     Some(c11::Case { s, graphemes })
 }
 
